@@ -521,6 +521,102 @@ func (s *service) getValidators(txes ...dbft.Transaction[util.Uint256]) []dbft.P
   [("pkg/core/mpt/extension.go", [("	if r.Err == nil && isEmpty(no.Node) {", "	if isEmpty(no.Node) && r.Err == nil {")])]),
  ("r6-inblock-conflict-check-helper", ["C06", "C19"], "AddBlock: the conflict hash bound to a differently named local, message changed",
   [("pkg/core/blockchain.go", [("				h := attr.Value.(*transaction.Conflicts).Hash\n				if _, ok := seen[h]; ok {\n					return fmt.Errorf(\"invalid block: transaction %s conflicts with transaction %s of the same block\", tx.Hash().StringLE(), h.StringLE())", "				named := attr.Value.(*transaction.Conflicts).Hash\n				if _, found := seen[named]; found {\n					return fmt.Errorf(\"invalid block: %s and %s exclude each other\", tx.Hash().StringLE(), named.StringLE())")])]),
+ # ---- batch 6: the rules written from the defect reports of round 6 ----
+ ("r7-getproof-bound-swapped", ["C10", "C03"], "GetProof: the key length test with the operands swapped",
+  [("pkg/core/mpt/proof.go", [("""	if len(key) > MaxKeyLength {""", """	if MaxKeyLength < len(key) {""")])]),
+ ("r7-handlechainblock-early-return", ["C19"], "handleChainBlock: the index test as an early return",
+  [("pkg/consensus/consensus.go", [("""	if b.Index >= s.dbft.BlockIndex {
+		s.log.Debug("new block in the chain",
+			zap.Uint32("dbft index", s.dbft.BlockIndex),
+			zap.Uint32("chain index", s.Chain.BlockHeight()))
+		s.postBlock(b)
+		s.dbft.Reset(b.Timestamp * nsInMs)
+	}
+}""", """	if b.Index < s.dbft.BlockIndex {
+		return
+	}
+	s.log.Debug("new block in the chain",
+		zap.Uint32("dbft index", s.dbft.BlockIndex),
+		zap.Uint32("chain index", s.Chain.BlockHeight()))
+	s.postBlock(b)
+	s.dbft.Reset(b.Timestamp * nsInMs)
+}""")])]),
+ ("r7-ontransaction-early-return", ["C19"], "OnTransaction: the activity test as an early return",
+  [("pkg/consensus/consensus.go", [("""	if s.dbft != nil && s.started.Load() {
+		s.transactions <- tx
+	}
+}""", """	if s.dbft == nil || !s.started.Load() {
+		return
+	}
+	s.transactions <- tx
+}""")])]),
+ ("r7-getwithpath-copy-by-append", ["C10", "C03"], "getWithPath: the path copied with append to a nil slice instead of slices.Clone",
+  [("pkg/core/mpt/trie.go", [("""			// path is shorter than prefix, stop seeking
+			return curr, n.next, slices.Clone(n.key), nil""", """			// path is shorter than prefix, stop seeking
+			return curr, n.next, append([]byte(nil), n.key...), nil""")])]),
+ ("r7-traverse-leaf-guard-reordered", ["C10", "C03", "C09"], "Billet.traverse: the disjuncts of the visitor guard reordered",
+  [("pkg/core/mpt/billet.go", [("""	if len(from) == 0 || (backwards && isLeaf) {""", """	if (isLeaf && backwards) || len(from) == 0 {""")])]),
+ ("r7-headerverbose-embedded-selector", ["C17"], "getHeaderVerbose: the flag set through the embedded field's name",
+  [("pkg/rpcclient/rpc.go", [("""	resp.StateRootEnabled = sr
+	if err := c.performRequest("getblockheader", params, resp); err != nil {""", """	resp.Header.StateRootEnabled = sr
+	if err := c.performRequest("getblockheader", params, resp); err != nil {""")])]),
+ ("r7-expectedheadersize-renamed", ["C17"], "GetExpectedHeaderSize: locals renamed",
+  [("pkg/core/block/header.go", [("re", r"\binvLen\b", "sigsLen"), ("re", r"\bverLen\b", "keysLen")])]),
+ ("r7-marshaljson-typeswitch", ["C17"], "ContractInvocation.MarshalJSON: the kind test as a type switch",
+  [("pkg/core/state/contract_invocation.go", [("""		var ok bool
+		args, ok = si.(*stackitem.Array)
+		if !ok {
+			return nil, fmt.Errorf("failed to convert invocation arguments of type %s to array", si.Type().String())
+		}""", """		switch a := si.(type) {
+		case *stackitem.Array:
+			args = a
+		default:
+			return nil, fmt.Errorf("failed to convert invocation arguments of type %s to array", si.Type().String())
+		}""")])]),
+ ("r7-hastryblock-two-ifs", ["C04", "C12"], "ContractHasTryBlock: the condition split into two ifs",
+  [("pkg/vm/vm.go", [("""			if eCtx.State == eTry || (eCtx.State == eCatch && eCtx.HasFinally()) {
+				return true
+			}""", """			if eCtx.State == eTry {
+				return true
+			}
+			if eCtx.State == eCatch && eCtx.HasFinally() {
+				return true
+			}""")])]),
+ ("r7-invocation-caller-through-local", ["C15", "C06"], "InitVerificationContext: the zero caller through a local",
+  [("pkg/core/blockchain.go", [("""		ic.VM.LoadScriptWithCaller(witness.InvocationScript, util.Uint160{}, callflag.NoneFlag)""", """		var nobody util.Uint160
+		ic.VM.LoadScriptWithCaller(witness.InvocationScript, nobody, callflag.NoneFlag)""")])]),
+ ("r7-headerhashes-offset-local", ["C02", "C06"], "HeaderHashes.init: the position inside the page through a local",
+  [("pkg/core/headerhashes.go", [("""			h.latest = h.latest[:currHeaderHeight-h.storedHeaderCount-uint32(len(headers))]""", """			inPage := currHeaderHeight - h.storedHeaderCount
+			h.latest = h.latest[:inPage-uint32(len(headers))]""")])]),
+ ("r7-pool-verify-explicit-unlock", ["C08"], "Pool.Verify: explicit unlock instead of defer",
+  [("pkg/core/mempool/mem_pool.go", [("""	mp.lock.Lock()
+	defer mp.lock.Unlock()
+	_, err := mp.checkTxConflicts(tx, feer)
+	return err == nil""", """	mp.lock.Lock()
+	_, err := mp.checkTxConflicts(tx, feer)
+	mp.lock.Unlock()
+	return err == nil""")])]),
+ ("r7-historicvm-ms-switch", ["C03", "C01"], "GetTestHistoricVM: the block time chosen with if/else",
+  [("pkg/core/blockchain.go", [("""		msPerBlock = uint32(bc.config.TimePerBlock.Milliseconds())
+	)
+	if bc.IsHardforkEnabled(&hf, b.Index-1) {
+		msPerBlock = bc.policy.GetMillisecondsPerBlockInternal(dTrie)
+	}""", """		msPerBlock uint32
+	)
+	if bc.IsHardforkEnabled(&hf, b.Index-1) {
+		msPerBlock = bc.policy.GetMillisecondsPerBlockInternal(dTrie)
+	} else {
+		msPerBlock = uint32(bc.config.TimePerBlock.Milliseconds())
+	}""")])]),
+ ("r7-scopesfromstring-validate-local", ["C15", "C17"], "ScopesFromString: the validator's results through locals",
+  [("pkg/core/transaction/witness_scope.go", [("""	return ScopesFromByte(byte(result))
+}""", """	res, err := ScopesFromByte(byte(result))
+	return res, err
+}""")])]),
+ ("r7-getcommits-view-first", ["C17", "C19"], "recoveryMessage.GetCommits: the assignments reordered",
+  [("pkg/consensus/recovery_message.go", [("""		cc.message.ViewNumber = c.ViewNumber
+		cc.message.ValidatorIndex = c.ValidatorIndex""", """		cc.message.ValidatorIndex = c.ValidatorIndex
+		cc.message.ViewNumber = c.ViewNumber""")])]),
 ]
 
 out = "/verif/benign"
